@@ -17,7 +17,7 @@ def populated(times, prefix):
     key = (tuple(times), prefix)
     if key in _cache:
         return _cache[key]
-    s3c = fake_s3.install()
+    s3c = fake_s3.install(random_ids=len(_cache) + 17)
     _nbuckets[0] += 1
     bucket = 'b%d' % _nbuckets[0]   # never reuse a bucket name: the fake stores are global
     cas = s3c.S3TapeCassette(bucket, key_prefix=prefix, read_only=False)
